@@ -75,18 +75,34 @@ class Amt(int):
         return (Amt, (int(self), self.uid))
 
 
+class AccUpdater:
+    """Accumulate-updater for one variable that records every call.  A class
+    (not a closure) so that schemas containing it can cross process boundaries;
+    all instances for one variable are equal."""
+
+    def __init__(self, var):
+        self.var = var
+        self.__name__ = 'probe_acc_' + var
+
+    def __call__(self, current, update):
+        REC.add('apply', self.var, int(current), int(update),
+                getattr(update, 'uid', 0), REC.now())
+        return int(current) + int(update)
+
+    def __eq__(self, other):
+        return isinstance(other, AccUpdater) and other.var == self.var
+
+    def __hash__(self):
+        return hash(('AccUpdater', self.var))
+
+
 _UPDATERS = {}
 
 
 def updater_for(var):
-    """One shared accumulate-updater per variable that records every call."""
+    """One shared updater object per variable."""
     if var not in _UPDATERS:
-        def upd(current, update, _var=var):
-            REC.add('apply', _var, int(current), int(update),
-                    getattr(update, 'uid', 0), REC.now())
-            return int(current) + int(update)
-        upd.__name__ = 'probe_acc_' + var
-        _UPDATERS[var] = upd
+        _UPDATERS[var] = AccUpdater(var)
     return _UPDATERS[var]
 
 
